@@ -180,9 +180,15 @@ def run_binnify(ctx, shard):
                 lengths.append(max(1, b * int(rng.integers(1, 12)) - 1))  # one under
             else:
                 lengths.append(int(rng.integers(1, 40 * b + 1)))
+        zero_at = None
+        if nch >= 2 and rng.random() < 0.12:
+            zero_at = int(rng.integers(1, nch))          # an empty sequence that is not the first entry
+            lengths[zero_at] = 0
         if not ctx.want(cid):
             continue
         with ctx.case(cid, {"chromsizes": list(zip(names, lengths)), "binsize": b}) as c:
+            if zero_at is not None:
+                c.feature("binnify:zero-length-sequence")
             cs = pd.Series(lengths, index=names)
             if big:
                 c.feature("binnify:length>=2^31")
@@ -203,8 +209,9 @@ def run_binnify(ctx, shard):
                 c.check(model.conforms_fixed(bt, int(bs)), "binsize-untrue:on-binnify-output",
                         f"get_binsize(binnify(..., {b})) = {bs}")
             cs2 = util.get_chromsizes(out)
-            c.check(list(cs2.index) == names and [int(x) for x in cs2.values] == lengths,
-                    "chromsizes-not-last-bin-ends", "get_chromsizes(binnify(...)) != input sizes")
+            binned = [(n_, L_) for n_, L_ in zip(names, lengths) if L_ > 0]
+            c.check(list(cs2.index) == [x[0] for x in binned] and [int(x) for x in cs2.values] == [x[1] for x in binned],
+                    "chromsizes-not-last-bin-ends", "get_chromsizes(binnify(...)) != input sizes (of the sequences that have bins)")
             c.nontrivial("binnify", tuple(lengths), b)
             if k < 2:
                 ctx.sample({"chromsizes": list(zip(names, lengths)), "binsize": b, "nbins": len(out)})
@@ -285,6 +292,8 @@ def run_cli(ctx, shard):
         names = gen.gen_names(rng, nch)
         if k % 3 == 0 and "chr 1" not in names:
             names[0] = "chr 1"            # sequence names may contain blanks: the text tables are TAB-delimited
+        elif k % 3 == 1:
+            names[0] = ["chromosome_1", "chrom01", "chromX"][k % 9 // 3]       # a first line that resembles a column header
         b = int([1, 3, 10, 1000, 10**6, 5 * 10**6][int(rng.integers(6))])
         lengths = [int(rng.integers(1, 15 * b + 1)) if rng.random() < 0.6 else
                    b * int(rng.integers(1, 5)) + int([0, 1, 2, 7][int(rng.integers(4))]) for _ in names]
